@@ -4,7 +4,8 @@ From LJT Require Import model.SuspendCore model.SuspendMarker model.SuspendHuff 
   proofs.SuspendProofs proofs.SuspendWriteProofs proofs.SuspendMarkerProofs proofs.SuspendTheorems
   proofs.SuspendHuffProofs proofs.SuspendScanTheorems proofs.SuspendEncProofs
   model.SuspendBuf proofs.SuspendBufProofs model.SuspendLatch proofs.SuspendLatchProofs
-  model.SuspendRefine proofs.SuspendRefineProofs gen.GenSuspend.
+  model.SuspendRefine proofs.SuspendRefineProofs model.SuspendProg proofs.SuspendProgProofs
+  model.SuspendLossless proofs.SuspendLosslessProofs gen.GenSuspend.
 Import ListNotations.
 
 (* (1) generic: for a resumable unit parser every partition of the byte string gives the
@@ -103,6 +104,37 @@ Print Assumptions C09_ac_refine_unit_resumable.
 Theorem C09_ac_refine_chunking_irrelevant : forall c cs s, run_refine c cs s = run_refine c [concat cs] s.
 Proof. exact (fun c cs s => chunking_irrelevant_generic _ _ _ _ (refine_unit_resumable c) cs s). Qed.
 Print Assumptions C09_ac_refine_chunking_irrelevant.
+
+(* (2''') the other Huffman MCU decoders: jdphuff.c decode_mcu_DC_first, decode_mcu_AC_first (atomic: working state
+   committed at MCU end), decode_mcu_DC_refine (block[0] |= p1 in place: DIRTY suspended MCU, idempotent OR) and one
+   MCU of jdlhuff.c decode_mcus are resumable units, hence chunking-independent *)
+Theorem C09_dc_first_resumable : forall layout al, resumable (dc_first_unit layout al) pq_left.
+Proof. exact dc_first_resumable. Qed.
+Print Assumptions C09_dc_first_resumable.
+Theorem C09_ac_first_resumable : forall t ss se al, resumable (ac_first_unit t ss se al) pq_left.
+Proof. exact ac_first_resumable. Qed.
+Print Assumptions C09_ac_first_resumable.
+Theorem C09_dc_refine_resumable : forall al, resumable (dc_refine_unit al) (fun s => length (dq_todo s)).
+Proof. exact dc_refine_resumable. Qed.
+Print Assumptions C09_dc_refine_resumable.
+Theorem C09_lossless_mcu_resumable : forall tbls, resumable (lossless_mcu_unit tbls) pq_left.
+Proof. exact lossless_mcu_resumable. Qed.
+Print Assumptions C09_lossless_mcu_resumable.
+
+(* (2'''') lossless scan with restart intervals that begin INSIDE an iMCU row (non-interleaved component, v_samp_factor > 1):
+   jddiffct.c decompress_data position (MCU_vert_offset, MCU_ctr), jdlhuff.c process_restart, the restart_pending mask
+   and the deferred undifferencer reset; a suspension anywhere (also inside the restart marker) is transparent *)
+Theorem C09_lossless_restart_unit_resumable : forall c, resumable (lossless_unit c) (lossless_slack c).
+Proof. exact lossless_unit_resumable. Qed.
+Print Assumptions C09_lossless_restart_unit_resumable.
+Theorem C09_lossless_chunking_irrelevant : forall c cs s, run_lossless c cs s = run_lossless c [concat cs] s.
+Proof. exact lossless_chunking_irrelevant. Qed.
+Print Assumptions C09_lossless_chunking_irrelevant.
+
+Example C09_ex_lossless_restart_inside_imcu_row :
+  forallb (fun cs => if list_eq_dec (list_eq_dec Z.eq_dec) (lossless_out (run_lossless ex_lcfg cs (linit_ls ex_lcfg 1)))
+                          [[131; 131]; [128; 126]]%Z then true else false) (lsplits ex_lbytes) = true.
+Proof. exact ex_lossless_restart_inside_imcu_row. Qed.
 
 (* the fast path of decode_mcu, partial: decode_mcu_fast never suspends or fails; when it is not eligible or
    abandons the MCU (marker seen) nothing is committed and decode_mcu is exactly the slow unit covered by
